@@ -31,6 +31,11 @@ def install(ex):
     except ImportError:
         pass
     try:
+        from . import models_regex
+        for k, fn in models_regex.REG: ex.register(k, fn)
+    except ImportError:
+        pass
+    try:
         from . import models_serde
         for k, fn in models_serde.REG: ex.register(k, fn)
     except ImportError:
